@@ -354,7 +354,15 @@ pub fn plan_obs(src: &str) -> String {
 /// statistics of the `plan` class, from the observations: how many plans were compared and why the others were not
 pub fn tally(case: &str, obs: &str, sink: &mut Sink) {
   if !case.starts_with("plan\t") { return; }
-  if let Some(why) = obs.strip_prefix("skip:") { sink.hit(&format!("plan-skipped:{}", why)); } else if obs.starts_with("S=") { sink.hit("plan-compared"); sink.hit(&format!("plan-steps:{}", obs.split('|').next().unwrap_or("").split(';').count().min(20))); }
+  if let Some(why) = obs.strip_prefix("skip:") { sink.hit(&format!("plan-skipped:{}", why)); } else if obs.starts_with("S=") { sink.hit("plan-compared"); sink.hit(&format!("plan-steps:{}", obs.split('|').next().unwrap_or("").split(';').count().min(20)));
+    // which instruction forms the compared plans contain, and how often a step re-uses a cell that already has a register
+    let mut seen: std::collections::HashSet<&str> = std::collections::HashSet::new();
+    for st in obs.split('|').next().unwrap_or("").trim_start_matches("S=").split(';') {
+      let f: Vec<&str> = st.split(':').collect();
+      sink.hit(&format!("plan-step-class:{}", f[0]));
+      let mut reused = false; for a in f[1..].iter() { if !seen.insert(*a) { reused = true; } }
+      if reused { sink.hit("plan-steps-reusing-a-cell"); }
+    } }
 }
 
 /// probing aid: the raw text of every plan step and the instruction stream compiled from the plan
